@@ -1,2 +1,43 @@
-import FpgoVerif.Model.C02
-/-! Property theorems for C02 (none yet). -/
+import FpgoVerif.Proofs.C02Int
+/-! Property theorems for C02 — "Maybe numeric conversions are value-preserving or fail; never silently wrap".
+
+    All theorems are about `convGo` = the evaluator `conv` applied to `Gen.convTable`, the table the
+    extractor regenerates from `maybe.go` on every run — the very function the driver executes in the
+    correspondence.  `specOK` (Model/C02.lean) is the property's statement, clause by clause; `judge`
+    evaluates the same `specOK` on the real code's observations. -/
+namespace FpgoVerif.C02
+
+/-! ### the regenerated table has the expected inventory -/
+
+/-- The 14 conversion methods with their own type switch (and `ToUint8` delegating to `ToByte`) are exactly
+    the ones the model, the harness and the property talk about. -/
+theorem C02_table_methods :
+    Gen.convMethods = [("ToFloat64", .float64), ("ToFloat32", .float32), ("ToInt", .int), ("ToInt8", .int8),
+      ("ToInt16", .int16), ("ToInt32", .int32), ("ToInt64", .int64), ("ToByte", .uint8), ("ToUint", .uint),
+      ("ToUint16", .uint16), ("ToUint32", .uint32), ("ToUint64", .uint64), ("ToUintptr", .uintptr), ("ToBool", .bool)]
+    ∧ Gen.convAliases = [("ToUint8", "ToByte")] := by decide +kernel
+
+/-! ### integer → integer (121 cells) -/
+
+/-- Closing theorem over the regenerated table: every (integer target, integer source) cell passes the
+    reflective interval checker. -/
+theorem C02_table_int :
+    intTys.all (fun tgt => intTys.all (fun src => intCellOK Gen.convTable tgt src)) = true := by decide +kernel
+
+/-- Clauses (a), (b), (c) for every integer target, every integer source type and EVERY value of that type. -/
+theorem C02_int_to_int (tgt src : Ty) (ht : tgt ∈ intTys) (hs : src ∈ intTys) (lo hi z : Int)
+    (hr : src.range = some (lo, hi)) (h1 : lo ≤ z) (h2 : z ≤ hi) :
+    specOK tgt (.ty src) (.i z) (convGo tgt (.ty src) (.i z)) = true := by
+  have hall := C02_table_int
+  rw [List.all_eq_true] at hall
+  have h' := hall tgt ht
+  rw [List.all_eq_true] at h'
+  have hc := h' src hs
+  have := intBodyOK_sound goStrconv Gen.convTable 4 tgt src lo hi hr hc z h1 h2
+  cases src <;> simpa [specOK, convGo, convFuel] using this
+
+example : specOK .uint8 (.ty .int8) (.i (-1)) (convGo .uint8 (.ty .int8) (.i (-1))) = true := by decide +kernel
+example : convGo .uint8 (.ty .int8) (.i (-1)) = ⟨.i 0, .overflow⟩ := by decide +kernel
+example : convGo .int16 (.ty .uint64) (.i 32767) = ⟨.i 32767, .ok⟩ := by decide +kernel
+
+end FpgoVerif.C02
